@@ -752,7 +752,7 @@ fn main() {
             problems.push(format!("cannot parse {path}"));
             return;
         };
-        struct V<'a>(&'a mut BTreeMap<String, Value>);
+        struct V<'a>(&'a mut BTreeMap<String, Value>, Vec<String>);
         impl<'ast, 'a> syn::visit::Visit<'ast> for V<'a> {
             fn visit_item_const(&mut self, c: &'ast syn::ItemConst) {
                 self.0.insert(c.ident.to_string(), Value::String(norm(&c.expr)));
@@ -762,8 +762,32 @@ fn main() {
                     syn::visit::visit_item_mod(self, m);
                 }
             }
+            fn visit_impl_item_fn(&mut self, f: &'ast syn::ImplItemFn) {
+                self.1.push(f.sig.ident.to_string());
+                syn::visit::visit_impl_item_fn(self, f);
+                self.1.pop();
+            }
+            fn visit_trait_item_fn(&mut self, f: &'ast syn::TraitItemFn) {
+                self.1.push(f.sig.ident.to_string());
+                syn::visit::visit_trait_item_fn(self, f);
+                self.1.pop();
+            }
+            // the retry budget: `<stream>.throttle(<duration>).take(<n>)` inside a function
+            fn visit_expr_method_call(&mut self, m: &'ast syn::ExprMethodCall) {
+                if m.method == "take" {
+                    if let syn::Expr::MethodCall(inner) = &*m.receiver {
+                        if inner.method == "throttle" {
+                            let f = self.1.last().cloned().unwrap_or_default();
+                            let thr = inner.args.first().map(|e| norm(e)).unwrap_or_default();
+                            let take = m.args.first().map(|e| norm(e)).unwrap_or_default();
+                            self.0.insert(format!("RETRY[{f}]"), Value::String(format!("throttle={thr} take={take}")));
+                        }
+                    }
+                }
+                syn::visit::visit_expr_method_call(self, m);
+            }
         }
-        syn::visit::visit_file(&mut V(consts), &f);
+        syn::visit::visit_file(&mut V(consts, Vec::new()), &f);
     };
     if !lab {
         grab_consts("zvt_feig_terminal/src/feig.rs", &mut consts, &mut problems);
